@@ -246,6 +246,13 @@ impl World {
         cmd.env("VERIF_TRACK", dir.as_os_str());
         cmd.env("VERIF_SHIM_LOG", &logp);
         cmd.env("VERIF_HASH_SEED", &plan.hash_seed);
+        // the clock of the invocation is a function of its hash-seed draw: the real clock, or one that jumps 1 ms / 1 min with
+        // every read (a machine that is arbitrarily slow); nothing logos-cli writes may depend on it
+        match plan.hash_seed.as_bytes().last() {
+            Some(b'0'..=b'3') => { cmd.env("VERIF_CLOCK_STEP_NS", "1000000"); }
+            Some(b'4' | b'5') => { cmd.env("VERIF_CLOCK_STEP_NS", "60000000000"); }
+            _ => {}
+        }
         cmd.env("VERIF_RUSTFMT_MODE", &plan.rustfmt);
         if !plan.rules.is_empty() {
             cmd.env("VERIF_PLAN", plan.rules.join(","));
@@ -404,6 +411,7 @@ fn count_faults(log: &[String], stats: &mut Stats) {
         if l.contains("FAULT EACCES") { stats.hit("fault_fired_eacces_on_open"); }
         if l.contains(" SHORT ") { stats.hit(if l.starts_with("read") { "fault_fired_short_read" } else { "fault_fired_short_write" }); }
         if l.starts_with("getrandom served") { stats.hit("hash_keys_served_by_the_seam"); }
+        if l.starts_with("clock_gettime served") { stats.hit("hash_clock_reads_served_by_the_seam"); }
     }
 }
 
